@@ -88,7 +88,7 @@ class StructuredGrammaticalEvolutionRepresentation(
                     # without its refinements: with string annotations the refined type is a new object on every call,
                     # and two genotypes of one grammar would not have the same genes
                     nodes.append(str(gene_key(arg)))
-                base_type = str(strip_annotations(arg))
+                base_type = str(gene_key(strip_annotations(arg)))  # (a tuple keeps its members' refinements otherwise)
                 if base_type not in nodes:
                     nodes.append(base_type)
 
